@@ -301,7 +301,29 @@ impl<'tcx> Cx<'tcx> {
                             },
                             _ => false,
                         };
-                        if is_str || is_bytes {
+                        let small_array = match cty.kind() {
+                            ty::Array(e, _) => matches!(e.kind(), ty::Bool | ty::Uint(ty::UintTy::U8)),
+                            _ => false,
+                        };
+                        if small_array {
+                            // a named constant table of one-byte elements (`const T: [bool; 128] = build();`): its evaluated bytes
+                            let mut done = false;
+                            if let ConstValue::Indirect { alloc_id, offset } = v {
+                                if let mir::interpret::GlobalAlloc::Memory(a) = tcx.global_alloc(alloc_id) {
+                                    let al = a.inner();
+                                    let start = offset.bytes() as usize;
+                                    let all = al.inspect_with_uninit_and_ptr_outside_interpreter(0..al.len());
+                                    if start <= all.len() {
+                                        let l: Vec<String> = all[start..].iter().map(|x| x.to_string()).collect();
+                                        let _ = write!(s, ",\"array\":[{}]", l.join(","));
+                                        done = true;
+                                    }
+                                }
+                            }
+                            if !done {
+                                let _ = write!(s, ",\"opaque\":{}", esc(&format!("{}", c.const_)));
+                            }
+                        } else if is_str || is_bytes {
                             if let Some(b) = v.try_get_slice_bytes_for_diagnostics(tcx) {
                                 if is_str {
                                     let _ = write!(s, ",\"str\":{}", esc(&String::from_utf8_lossy(b)));
